@@ -565,14 +565,15 @@ func (mw *TinkEncryptionPartStoreMiddleware) GetPart(ctx context.Context, tx dat
 		}
 
 		// Create a decrypting reader for the remaining data
-		decryptReader, err := dekStreamingAEAD.NewDecryptingReader(rc, partId.Bytes())
+		counted := &countingReader{r: rc}
+		decryptReader, err := dekStreamingAEAD.NewDecryptingReader(counted, partId.Bytes())
 		if err != nil {
 			closeUnderlying()
-			return nil, err
+			return nil, noEOF(err)
 		}
 
 		// Return a composite reader that wraps the decrypt reader with the underlying closer
-		return &compositeReadCloser{decryptReader, closerFunc(closeUnderlying)}, nil
+		return &compositeReadCloser{&checkedSequentialReader{r: decryptReader, ct: counted, css: int64(segmentSize)}, closerFunc(closeUnderlying)}, nil
 	})
 
 	return ioutils.NewReadCloserWithCloseHook(lazyReader, closeUnderlying), nil
@@ -586,7 +587,7 @@ func (mw *TinkEncryptionPartStoreMiddleware) readPartHeaderAndDEK(rc io.Reader, 
 	// Read the header length (4 bytes big-endian)
 	lengthBytes := make([]byte, 4)
 	if _, err := io.ReadFull(rc, lengthBytes); err != nil {
-		return nil, 0, 0, err
+		return nil, 0, 0, noEOF(err)
 	}
 
 	headerLen := binary.BigEndian.Uint32(lengthBytes)
@@ -594,7 +595,7 @@ func (mw *TinkEncryptionPartStoreMiddleware) readPartHeaderAndDEK(rc io.Reader, 
 	// Read and parse the header
 	headerBytes := make([]byte, headerLen)
 	if _, err := io.ReadFull(rc, headerBytes); err != nil {
-		return nil, 0, 0, err
+		return nil, 0, 0, noEOF(err)
 	}
 
 	var header PartHeader
@@ -673,4 +674,58 @@ func (mw *TinkEncryptionPartStoreMiddleware) DeletePart(ctx context.Context, tx 
 	defer span.End()
 
 	return mw.innerPartStore.DeletePart(ctx, tx, partId)
+}
+
+// noEOF turns a clean end-of-stream met while parsing a header into an error:
+// a part always consists of header and ciphertext, so an early EOF means the
+// stored object is truncated (and must not read as an empty part).
+func noEOF(err error) error {
+	if err == io.EOF {
+		return io.ErrUnexpectedEOF
+	}
+	return err
+}
+
+type countingReader struct {
+	r io.Reader
+	n int64
+}
+
+func (c *countingReader) Read(p []byte) (int, error) {
+	n, err := c.r.Read(p)
+	c.n += int64(n)
+	return n, err
+}
+
+// checkedSequentialReader wraps tink-go's sequential decrypting reader. It makes
+// the first error sticky (tink-go re-delivers the last segment when Read is
+// called after io.EOF) and, at EOF, checks that the amount of ciphertext
+// consumed matches the plaintext delivered: tink-go ignores a single left-over
+// byte behind a full segment and reports a stream that ends right behind the
+// tink header as empty.
+type checkedSequentialReader struct {
+	r   io.Reader
+	ct  *countingReader // counts from the start of the tink header
+	css int64
+	pt  int64
+	err error
+}
+
+func (c *checkedSequentialReader) Read(p []byte) (int, error) {
+	if c.err != nil {
+		return 0, c.err
+	}
+	n, err := c.r.Read(p)
+	c.pt += int64(n)
+	if err == io.EOF {
+		const tinkHeaderLen, tagSize = 1 + 32 + 7, 16
+		segments := (c.ct.n + c.css - 1) / c.css
+		if segments < 1 || c.ct.n-tinkHeaderLen-tagSize*segments != c.pt {
+			err = io.ErrUnexpectedEOF
+		}
+	}
+	if err != nil {
+		c.err = err
+	}
+	return n, err
 }
